@@ -33,13 +33,14 @@ class ABytes(object):
 
 class AObj(object):
     """Reference to an abstract object; attributes live in State.heap."""
-    __slots__ = ("ident", "mod", "cnode", "label")
+    __slots__ = ("ident", "mod", "cnode", "label", "const_attrs")
 
     def __init__(self, ident, mod=None, cnode=None, label=""):
         self.ident = ident
         self.mod = mod
         self.cnode = cnode
         self.label = label
+        self.const_attrs = None     # immutable namespace objects (module level)
 
     def __repr__(self):
         return "<obj#%d %s>" % (self.ident,
